@@ -65,6 +65,28 @@ def run(repo, chk):
         q = Q.reachable_without(g, r, avoid_node=lambda n: n in conv)
         chk.ob('e', h.ref, 'every path to the request fire evaluates int(<Content-Length header>)', q is None and bool(conv), loc(h, r.ast),
                path=pat.path_lines(q) if q else None, discr='content-length-validated')
+    # f: reject responses are built from constants: text taken from the rejected bytes must not decide whether the response can be produced
+    chk.rule('C14.f', 'reject responses of _on_read carry no text taken from the rejected message (their body can always be produced); the response '
+                      'handler closes a connection whose response announces it whether or not a (request, response) entry exists')
+    for n, name in rejects:
+        if name != 'httperror':
+            continue
+        c = [e for _c, _r, e in pat.fire_calls(n.ast) if pat.event_ctor_name(e) == name][0]
+        dyn = [k for k in c.keywords if k.arg in ('description', 'error') and not isinstance(k.value, ast.Constant)]
+        chk.ob('f', h.ref, 'the description of a reject response is a constant', not dyn, loc(h, n.ast), detail='; '.join(f'{k.arg}={src(k.value)[:50]}' for k in dyn),
+               discr=f'constant-description:{_case(n)}')
+    rs = repo.func(WEB_HTTP, 'HTTP._on_response')
+    chk.touch(rs)
+    gr = rs.cfg()
+    hw = [n for n in gr.nodes if n.kind == 'stmt' and 'bytes(res)' in src(n.ast) and pat.fire_calls(n.ast)]
+    closes_ = [n for n in gr.nodes if n.kind == 'stmt' and any(pat.event_ctor_name(e) == 'close' for _c, _r, e in pat.fire_calls(n.ast))]
+    streams_ = [n for n in gr.nodes if n.kind == 'stmt' and pat.fires(n.ast, 'stream')]
+    need(hw, 'C14.f: _on_response does not write the header')
+    p = Q.escapes(gr, [hw[0]], lambda n: n in closes_ or n in streams_, exc=('StopIteration',),
+                  avoid_edge=pat.test_edge(lambda tt, pol: pol == 'F' and src(tt) == 'res.close'))
+    chk.ob('f', rs.ref, 'after the header every exit closes the connection if the response announced it (error responses for messages that never became a '
+                        'request have no entry in _clients)', p is None and bool(closes_), loc(rs, hw[0].ast), path=pat.path_lines(p, hw[0]) if p else None,
+           discr='close-independent-of-entry')
     # b: parse-error rejects drop the parser first
     dels = [n for n in g.nodes if n.kind == 'stmt' and isinstance(n.ast, ast.Delete) and any(src(t) == f'self._buffers[{sock}]' for t in n.ast.targets)]
     for n, name in rejects:
